@@ -1,7 +1,7 @@
 (* Proofs/Delivery_proofs.v — what arrives is what was issued: query / fragment placement
    (Message.request + urlencode) and the form_post page (Model/Delivery.v). *)
 From Coq Require Import String.
-From Verif Require Import Lib.Base Lib.PyStr Lib.Urlenc Lib.Html Model.Delivery Proofs.Html_proofs.
+From Verif Require Import Lib.Base Lib.PyStr Lib.Urlenc Lib.Html Model.Uri Model.Delivery Proofs.Html_proofs Proofs.Uri_proofs.
 Open Scope N_scope.
 
 (* ------------------------------------------------------------------ form_post page reads back *)
@@ -308,23 +308,81 @@ Qed.
 (* ------------------------------------------------------------------ end-session: where state is put *)
 Lemma quote_plus_state : quote_plus (PS "state"%string) = PS "state"%string.
 Proof. vm_compute. reflexivity. Qed.
-Theorem logout_target_is_place uri s b : utf8 s = Ok b ->
-  logout_target uri (Some s) = Ok (uri ++ 63 :: urlencode_b [(PS "state"%string, b)]).
+Lemma state_pair_bytes s b : utf8 s = Ok b -> Forall pair_bytes [(PS "state"%string, b)].
 Proof.
-  intros H. unfold logout_target. rewrite H. cbn [bind]. unfold urlencode_b. cbn [List.map join fst snd].
-  now rewrite quote_plus_state.
+  intros H. constructor; [|constructor]. split; cbn [fst snd]; [|eapply utf8_bytes; eauto].
+  unfold is_bytes. let l := eval vm_compute in (PS "state"%string) in change (PS "state"%string) with l.
+  split_forall; lazy beta; reflexivity.
 Qed.
-(* on a post-logout URI without query and fragment delimiter the receiver decodes exactly state *)
-Theorem logout_target_plain uri s b : utf8 s = Ok b -> has 63 uri = false -> has 35 uri = false ->
-  exists t, logout_target uri (Some s) = Ok t /\ split1_c 63 t = Some (uri, urlencode_b [(PS "state"%string, b)])
-            /\ no_c 35 t = true /\ parse_qsl_b (urlencode_b [(PS "state"%string, b)]) = [(PS "state"%string, b)].
+(* the post-logout target is Message.request-style placement of the single parameter state *)
+Theorem logout_target_is_place uri s b : utf8 s = Ok b ->
+  logout_target uri (Some s) = Ok (place uri (urlencode_b [(PS "state"%string, b)]) false).
 Proof.
-  intros H Hq Hh. eexists. split; [apply (logout_target_is_place uri s b H)|].
-  assert (Hl : Forall pair_bytes [(PS "state"%string, b)]).
-  { constructor; [|constructor]. split; cbn [fst snd]; [|eapply utf8_bytes; eauto].
-    unfold is_bytes. let l := eval vm_compute in (PS "state"%string) in change (PS "state"%string) with l.
-    split_forall; lazy beta; reflexivity. }
+  intros H. unfold logout_target. rewrite H. cbn [bind]. unfold place.
+  pose proof (urlencode_b_nonempty (PS "state"%string, b) []) as Hn.
+  destruct (urlencode_b [(PS "state"%string, b)]) as [|x t] eqn:E; [congruence|]. rewrite <- E.
+  unfold urlencode_b. cbn [List.map join fst snd]. rewrite quote_plus_state.
+  destruct (existsb (fun c => c =? 63) uri); reflexivity.
+Qed.
+
+(* ------------------------------------------------------------------ delivery to an ACCEPTED redirect URI (full statements) *)
+Lemma no_has c s : no_c c s = true -> has c s = false.
+Proof.
+  unfold no_c, has. intros H. destruct (existsb (fun x => x =? c) s) eqn:E; [|reflexivity].
+  apply existsb_exists in E as [x [Hx Ex]]. rewrite forallb_forall in H. specialize (H x Hx). now rewrite Ex in H.
+Qed.
+Lemma has_split c s : has c s = true -> exists a b, split1_c c s = Some (a, b).
+Proof.
+  induction s as [|x r IH]; [discriminate|]. unfold has. cbn [existsb split1_c]. intros H.
+  destruct (x =? c); [eauto|]. cbn [orb] in H. destruct (IH H) as [a [b ->]]. eauto.
+Qed.
+
+(* query mode: the user agent is sent to the accepted URI itself, the produced URL has no fragment, and its
+   query decodes to the URI's own parameters followed by exactly the issued ones *)
+Theorem delivery_query_accepted regs native oidc u l :
+  verify_uri regs native oidc u = Ok tt -> Forall pair_bytes l -> l <> [] ->
+  let r := place u (urlencode_b l) false in
+  no_c 35 r = true /\
+  ((has 63 u = false /\ split1_c 63 r = Some (u, urlencode_b l) /\ parse_qsl_b (urlencode_b l) = l)
+   \/ (exists base q0, u = base ++ 63 :: q0 /\ has 63 base = false
+        /\ split1_c 63 r = Some (base, q0 ++ 38 :: urlencode_b l)
+        /\ parse_qsl_b (q0 ++ 38 :: urlencode_b l) = parse_qsl_b q0 ++ l)).
+Proof.
+  intros Hv Hl Hne r. subst r.
+  destruct (verify_uri_accepted_clean _ _ _ _ Hv) as (d & _ & _ & _ & Hh).
+  change (has_c 35 u) with (has 35 u) in Hh.
+  destruct (has 63 u) eqn:Eq.
+  - destruct (has_split _ _ Eq) as [base [q0 Es]].
+    pose proof (split1_c_some_no _ _ _ _ Es) as Hb. apply no_has in Hb.
+    apply split1_c_eq in Es. subst u.
+    destruct (place_query_extend base q0 l Hl Hne Hb Hh) as (E & A & B & C).
+    split; [exact B|]. right. exists base, q0. auto.
+  - destruct (place_query_plain u l Hl Hne Eq Hh) as (E & A & B & C).
+    split; [exact B|]. left. auto.
+Qed.
+
+(* fragment mode *)
+Theorem delivery_fragment_accepted regs native oidc u l :
+  verify_uri regs native oidc u = Ok tt -> Forall pair_bytes l -> l <> [] ->
+  split1_c 35 (place u (urlencode_b l) true) = Some (u, urlencode_b l) /\ parse_qsl_b (urlencode_b l) = l.
+Proof.
+  intros Hv Hl Hne.
+  destruct (verify_uri_accepted_clean _ _ _ _ Hv) as (d & _ & _ & _ & Hh).
+  change (has_c 35 u) with (has 35 u) in Hh.
+  destruct (place_fragment u l Hl Hne Hh) as (E & A & B). auto.
+Qed.
+
+(* end-session: state reaches an accepted post-logout URI as one more parameter, never glued into another *)
+Theorem logout_state_accepted regs native oidc uri s b :
+  verify_uri regs native oidc uri = Ok tt -> utf8 s = Ok b ->
+  exists t, logout_target uri (Some s) = Ok t /\ no_c 35 t = true /\
+    ((has 63 uri = false /\ split1_c 63 t = Some (uri, urlencode_b [(PS "state"%string, b)])
+      /\ parse_qsl_b (urlencode_b [(PS "state"%string, b)]) = [(PS "state"%string, b)])
+     \/ (exists base q0, uri = base ++ 63 :: q0 /\ has 63 base = false
+          /\ split1_c 63 t = Some (base, q0 ++ 38 :: urlencode_b [(PS "state"%string, b)])
+          /\ parse_qsl_b (q0 ++ 38 :: urlencode_b [(PS "state"%string, b)]) = parse_qsl_b q0 ++ [(PS "state"%string, b)])).
+Proof.
+  intros Hv Hb. eexists. split; [apply (logout_target_is_place uri s b Hb)|].
   assert (Hne : [(PS "state"%string, b)] <> []) by discriminate.
-  destruct (place_query_plain uri _ Hl Hne Hq Hh) as (E & A & B & C).
-  rewrite <- E. auto.
+  exact (delivery_query_accepted _ _ _ _ _ Hv (state_pair_bytes s b Hb) Hne).
 Qed.
